@@ -84,6 +84,10 @@ namespace xv
             for (auto& s : R.vacuous_ops)
                 j.str(s);
             j.earr();
+            j.k("rejected_at_run_time").arr();
+            for (auto& s : R.rejected_at_run_time)
+                j.str(s);
+            j.earr();
             j.k("saturated").arr();
             for (auto& s : R.saturated)
                 j.str(s);
